@@ -12,6 +12,7 @@ SPEC = {
         {"comp": "tparams", "module": "QV.Model.TParams", "quick": 500, "thorough": 10000},
         {"comp": "sim_c03", "module": "QV.Sys.MonC04", "quick": 60, "thorough": 1500},
         {"comp": "sim_c03h", "module": "QV.Sys.MonC03", "quick": 112, "thorough": 3000},
+        {"comp": "sim_c03t", "module": "QV.Sys.MonC03T", "quick": 144, "thorough": 3000},
     ],
     "assumptions": [
         "CidQueue ring-buffer arithmetic is proved for the compiled value CidQueue::LEN = 5 (Props/C03.v instantiates the lemma with the generated constant by reflexivity, so another value breaks the build)",
